@@ -108,7 +108,7 @@ CHECKS = {
         "CalcDeltaS applies its exact inverse to the target; bonded/three-body outputs are normalised to unit integral; the IMC block is "
         "-(<SiSj>-<Si><Sj>^T) mirrored by transpose; every accumulator updated while merging is reset by ClearAverages; block output "
         "writes before clearing; per-frame histograms are cleared before filling; values go to the nearest bin centre."
-        + 'Also: every per-block accumulator update of MergeWorker (frame count, average volume, means, correlations) precedes the block output and its ClearAverages; the pair-count factor is 1/(N1 N2) for two bead types and 2/(N1 N2) for one. ',
+        + 'Also: every per-block accumulator update of MergeWorker (frame count, average volume, means, correlations) precedes the block output and its ClearAverages; the pair-count factor is 1/(N1 N2) for two bead types and 2/(N1 N2) for one; the bonded values that are binned (IBond/IAngle/IDihedral::EvaluateVar) equal the geometric bond length, angle and dihedral at random rational geometries. ',
    note="Identities of formulas in the current source. Not decided: agreement with an independent recomputation on data, the pair "
         "search (C03), bin memory safety (C13)."),
  "C06": dict(cat="other", ref="DESIGN.md section 4 C06",
@@ -180,7 +180,7 @@ CHECKS = {
         "value kind the writer stores has a reader; the matrix writer and reader use identical hyperslab selections and transfer "
         "spaces (so the stored layout is the read layout for every shape); reading a missing name or any HDF5 failure becomes a thrown "
         "std::runtime_error; re-writing an existing name unlinks and re-creates the object (so the old value is replaced for any new shape)."
-        + 'Also: every construction of a CheckpointWriter from a group in checkpoint.cc lies behind the READ rejection; list members are written and fetched by the same name function of the position; for the five parsable row classes (Atom, QMAtom, StaticSite, PolarSite, QMPair) every field of the row record has one column at its own offset and type, is filled by WriteData and consumed by ReadData, and each member slot is restored from the column it was stored in; a scalar attribute that is reopened when its name exists is created with a value-independent type. ',
+        + 'Also: every construction of a CheckpointWriter from a group in checkpoint.cc lies behind the READ rejection; list members are written and fetched by the same name function of the position; for the five parsable row classes (Atom, QMAtom, StaticSite, PolarSite, QMPair) every field of the row record has one column at its own offset and type, is filled by WriteData and consumed by ReadData, and each member slot is restored from the column it was stored in; a scalar attribute that is reopened when its name exists is created with a value-independent type; no dataset/group writer returns before the object of that name has been (re)created. ',
    note="Not decided: HDF5's behaviour, bit-identity of the transferred values, non-ASCII strings, CptTable's own HDF5 compound-type calls, the row classes in units that need libint/libecpint headers (not installed). "
         "xtp is parsed, not built; the overwrite defect was replayed with a stand-alone harness (replays/C17_overwrite.cc) and fixed."),
  "C19": dict(cat="other", ref="DESIGN.md section 4 C19",
